@@ -186,7 +186,7 @@ func formatSelectorExpr(ctx *formatCtx, v *ast.SelectorExpr, ref *ast.Expr) {
 			break
 		}
 		if imp, ok := ctx.imports[x.Name]; ok {
-			if !fmtToBuiltin(imp, v.Sel, ref) {
+			if !fmtToBuiltin(imp, ctx.scope, v.Sel, ref) {
 				imp.isUsed = true
 			}
 		}
